@@ -33,11 +33,14 @@ Definition check_exec (full : bool) (c : xcase) : N :=
   | RFuel => 1%N
   | RReject => if x_rejected c then 0%N else 1%N
   | RDone data s =>
+    (* a failure that crossed a deferred non-null boundary: the implementation's answer is the
+       recorded finding of C04 (known_findings.json); its shape was judged above, the verdict is not compared *)
+    if st_escape s then 0%N else
     if x_rejected c then 1%N
     else if negb (Bool.eqb (opt_is_some data) (opt_is_some (x_data c))) then 1%N
     else if full then
+      (* which resolvers still run after data itself is lost is left open by the property *)
       (if data_eqb data (x_data c) && multiset_eqb gerr_eqb (st_errs s) (x_errs c)
-          && multiset_eqb path_eqb (map c_path (st_calls s)) (map c_path (x_calls c))
        then 0%N else 1%N)
     else 0%N
   end.
